@@ -19,7 +19,7 @@ struct Sub {                    // one submitted message (an ll op)
 
 struct Out { size_t sub; int size; uint8_t type; int64_t t_inv_s, t_wire_s; uint64_t wire_step = 0; };
 
-struct StallWin { uint32_t node; size_t depth; uint64_t t1_processed = 0, t1_first = 0, t0_first = 0, t0_processed = 0; bool cleared = false; };
+struct StallWin { uint32_t node; size_t depth; uint64_t t1_processed = 0, t1_first = 0, t0_first = 0, t0_processed = 0; bool cleared = false; int64_t t0_first_s = -1; };
 
 static size_t depth_of(uint32_t key) { return (key >> 16) ? ((key >> 8) & 0xFF ? ((key & 0xFF) ? 3 : 2) : 1) : 0; }
 static bool in_subtree(uint32_t node, uint32_t root) {
@@ -77,8 +77,43 @@ struct Flow : Prop {
 		int nph = (int) r.range(1, thorough ? 4 : 3), maxt = 1;
 		uint8_t uniq = 0;
 		std::set<std::string> seen_keys;
+		bool slow_answers = false;
 		for (int p = 0; p < nph; p++) {
 			J ph = J::obj();
+			if (is_c04 && r.chance(200)) {
+				// focused stall: node S (the addressee N itself or an ancestor of it) stalls; one task then submits to N either more requests than one
+				// response budget holds, or more messages than any bounded queue would keep (130-170); S clears the stall after 0.05-4.5 s and N
+				// sends a spontaneous report right behind the notice (before any answer: answers are slow in such runs)
+				const std::vector<uint8_t> &n_addr = tree[r.below(tree.size())].addr;
+				std::vector<uint8_t> s_addr(n_addr.begin(), n_addr.begin() + (long) r.below(n_addr.size() + 1));
+				bool flood = r.chance(400);
+				int t_clear = 5000 + (r.chance(flood ? 300 : 750) ? (int) r.range(2200000, 4500000) : (int) r.range(50000, 500000));
+				J ev = J::arr();
+				{ J e = J::obj(); e.set("at_us", 5000); e.set("node", pc::jaddr(s_addr)); e.set("type", (int) MSG_STALL); e.set("data", pc::jarr({1})); e.set("tag", 10); ev.push(e); }
+				{ J e = J::obj(); e.set("at_us", t_clear); e.set("node", pc::jaddr(s_addr)); e.set("type", (int) MSG_STALL); e.set("data", pc::jarr({0})); e.set("tag", 11); ev.push(e); }
+				{ J e = J::obj(); e.set("at_us", t_clear + (int) r.below(3) * 2500); e.set("node", pc::jaddr(n_addr)); e.set("type", (int) MSG_BM_OCC); e.set("data", pc::jarr({(int) r.below(8)})); ev.push(e); }
+				ph.set("bus", ev);
+				J ops = J::arr();
+				{ J sl = J::obj(); sl.set("op", "sleep"); sl.set("us", 30000); ops.push(sl); }
+				int want = flood ? (int) r.range(130, 170) : (int) r.range(10, 14);
+				for (int i = 0; i < want; i++) {
+					J op; bool fresh = false;
+					for (int tries = 0; tries < 40 && !fresh; tries++) {
+						auto &v = flood ? cheap : requests;
+						const cat::LL *f = &cat::table[v[r.below(v.size())]];
+						op = pc::ll_op(r, *f, n_addr);
+						if (std::string(f->name) == "sys_ping") { char h[4]; snprintf(h, sizeof h, "%02x", uniq++); op.set("a", h); }
+						fresh = seen_keys.insert(pc::msg_key(pc::ll_expected(op))).second;
+					}
+					if (fresh) ops.push(op);
+				}
+				J tasks = J::arr(); tasks.push(ops); ph.set("tasks", tasks);
+				ph.set(flood ? "stall_flood" : "stall_overbudget", true);
+				if (!flood) slow_answers = true;
+				J post = J::arr(); post.push("quiesce"); ph.set("post", post);
+				phs.push(ph);
+				continue;
+			}
 			int nt = (int) r.range(1, 4); maxt = std::max(maxt, nt);
 			J tasks = J::arr();
 			const std::vector<uint8_t> &hot = tree[r.below(tree.size())].addr;
@@ -132,6 +167,7 @@ struct Flow : Prop {
 			J post = J::arr(); post.push("quiesce"); ph.set("post", post);
 			phs.push(ph);
 		}
+		if (slow_answers) { J b2 = plan["bus"]; b2.set("resp_delay_us", (int) r.range(20000, 80000)); plan.set("bus", b2); }
 		// heal: faults are over; every stall is cleared; expiry passes and every node sends further messages until the wire is stable
 		{
 			J ph = J::obj(); J pre = J::arr(); J h = J::obj(); h.set("op", "heal"); h.set("reverse", r.coin()); pre.push(h);
@@ -152,7 +188,7 @@ struct Flow : Prop {
 	std::map<uint32_t, std::vector<Out>> safe_q, live_q;      // outstanding per node: lenient-low / lenient-high
 	std::vector<StallWin> wins;
 	std::map<uint32_t, std::vector<size_t>> wire_per_node;     // sub indices in wire order
-	uint64_t n_def_deferred = 0, n_deferred = 0, n_expired = 0, n_alt = 0, n_released_after_stall = 0, n_due_checked = 0, max_budget = 0, n_hol = 0;
+	uint64_t n_def_deferred = 0, n_stall_stamped = 0, n_deferred = 0, n_expired = 0, n_alt = 0, n_released_after_stall = 0, n_due_checked = 0, max_budget = 0, n_hol = 0;
 	bool healed = false;
 	Engine *E = nullptr;
 	struct Trigger { std::vector<size_t> held; std::string why; };
@@ -250,6 +286,8 @@ struct Flow : Prop {
 				// must have held back not before the lenient-low accounting had room for it
 				int64_t stamp_low = st.inv_time_s;
 				if (s.def_deferred) { stamp_low = s.admit_low_s >= 0 ? s.admit_low_s : now_s; n_def_deferred++; }
+				// ... and for a message submitted into a stall that was known processed, not before the MSG_STALL=0 began to be delivered
+				for (auto &win : wins) if (in_subtree(s.node, win.node) && win.t1_processed && st.inv_step > win.t1_processed && win.t0_first && win.t0_first > st.inv_step && win.t0_first_s > stamp_low) { if (stamp_low == st.inv_time_s) n_stall_stamped++; stamp_low = win.t0_first_s; }
 				if (!pre_answered) sq.push_back(Out{si, s.size, s.exp.type, stamp_low, now_s, w.step});
 				live_q[s.node].push_back(Out{si, s.size, s.exp.type, st.inv_time_s, now_s, w.step});
 				if (getenv("VERIF_DEBUG")) fprintf(stderr, "[model t=%llu] wire %s size %d -> live sum=%d\n", (unsigned long long) sim::now_us(), k.c_str(), s.size, sum(live_q[s.node]));
@@ -305,7 +343,7 @@ struct Flow : Prop {
 				if (!used) credits[nk].push_back({m.type, f.last_read_step, f.id});
 				if (m.type == MSG_STALL && !m.data.empty()) {
 					if (m.data[0]) { StallWin w; w.node = nk; w.depth = depth_of(nk); w.t1_first = f.first_read_step; wins.push_back(w); f.tag |= 0x1000; }
-					else for (auto &w : wins) if (w.node == nk && !w.t0_first) w.t0_first = f.first_read_step;
+					else for (auto &w : wins) if (w.node == nk && !w.t0_first) { w.t0_first = f.first_read_step; w.t0_first_s = now_s; }
 				}
 			}
 		};
@@ -423,7 +461,8 @@ struct Flow : Prop {
 		p.set("due_messages_checked", (long long) n_due_checked); p.set("stall_windows", (long long) wins.size()); p.set("held_by_ancestor_stall_then_released", (long long) held_by_ancestor);
 		p.set("max_model_budget_ge_40", max_budget >= 40 ? 1 : 0); p.set("submitted", (long long) subs.size());
 		uint64_t root_stalls = 0; for (auto &w : wins) if (w.depth == 0) root_stalls++;
-		p.set("stall_from_interface", (long long) root_stalls); p.set("requests_known_to_have_been_held_back", (long long) n_def_deferred);
+		p.set("stall_from_interface", (long long) root_stalls); p.set("requests_known_to_have_been_held_back", (long long) n_def_deferred); p.set("requests_held_by_a_stall_and_stamped_at_its_end", (long long) n_stall_stamped);
+		{ long long fl = 0, ob = 0; for (size_t q = 0; q < e.plan["sessions"][0]["phases"].size(); q++) { if (e.plan["sessions"][0]["phases"][q].getb("stall_flood")) fl++; if (e.plan["sessions"][0]["phases"][q].getb("stall_overbudget")) ob++; } if (is_c04) { p.set("focused_stall_with_130_to_170_held_messages", fl); p.set("focused_stall_with_more_requests_than_one_budget", ob); } }
 		f.set("probes", p);
 	}
 };
